@@ -56,6 +56,9 @@ var indCtors = map[string]func(n []int, f []float64) instFn{
 	"Apo": func(n []int, f []float64) instFn {
 		x := trend.NewApo[float64]()
 		x.FastPeriod, x.SlowPeriod = n[0], n[1]
+		if len(f) > 1 {
+			x.FastSmoothing, x.SlowSmoothing = f[0], f[1]
+		}
 		track(x)
 		return func(in []<-chan float64) ([]<-chan float64, int) {
 			return outs(x.Compute(in[0])), -1
@@ -94,6 +97,9 @@ var indCtors = map[string]func(n []int, f []float64) instFn{
 	},
 	"Ema": func(n []int, f []float64) instFn {
 		x := trend.NewEmaWithPeriod[float64](n[0])
+		if len(f) > 0 {
+			x.Smoothing = f[0]
+		}
 		track(x)
 		return func(in []<-chan float64) ([]<-chan float64, int) {
 			return outs(x.Compute(in[0])), x.IdlePeriod()
